@@ -88,6 +88,38 @@ class Exec:
                         r = h(self, st, insn, self.ops(insn))
                     except bv.NonLinear as e:
                         raise bv.NonLinear("%s at %r" % (e, insn))
+                    except SymIndex as e:
+                        # a memory operand indexed by a symbolic (z3) value: case-split on its feasible values (<= 8),
+                        # e.g. heapify's child index after a cmov; each case continues with a concrete index
+                        if bv.is_aff(e.idx) or bv.is_c(e.idx) or e.reg is None or not getattr(self, "split_sym_index", False):
+                            raise
+                        vals, extra = [], []
+                        w = e.idx.size()
+                        while len(vals) <= 8:
+                            self.solver.push()
+                            self.solver.add(*(st.path + extra))
+                            rr = self.solver.check()
+                            if rr == z3.sat:
+                                v = self.solver.model().eval(e.idx, model_completion=True).as_long()
+                            self.solver.pop()
+                            self.n_checks += 1
+                            if rr != z3.sat:
+                                break
+                            vals.append(v)
+                            extra.append(e.idx != v)
+                        if len(vals) > 8:
+                            raise Unsupported("symbolic index with more than 8 feasible values in %r" % (insn,))
+                        for v in vals:
+                            alt = st.fork()
+                            alt.path.append(e.idx == v)
+                            full = alt.r[e.reg]
+                            if e.regw == 64:
+                                alt.r[e.reg] = v
+                            else:
+                                alt.r[e.reg] = bv.concat([(64 - e.regw, bv.extract(full, 63, e.regw)), (e.regw, v)])
+                            alt.pc = insn.addr
+                            work.append(alt)
+                        break
                     if r is not None:
                         # conditional branch on symbolic condition: r = (cond, target)
                         cond, target = r
